@@ -121,9 +121,10 @@ def run(ctx):
     cases, g = fc.gen(ctx, with_mutants=False)
     cases = [c for c in cases if not c["schema"]["aux"]]      # the statement quantifies over single-schema inputs
     if ctx.quick:
-        cases = cases[::2][:10]
+        cases = fc.stratify(cases)
     n = dis = 0
     nacc = [0]
+    generic_only = []
     samples = []
 
     def one(a):
@@ -175,9 +176,14 @@ def run(ctx):
                 samples.append({"choice": c["choice"], "dictionary_entity": dump["entities"][0]})
             nacc[0] += len(dump.get("accessors", []))
             for a in dump.get("accessors", []):
-                if not (a["r1"] and a["r2"] and a["g1"] and a["g2"]):
+                if a["r1"] and a["r2"] and not (a["g1"] and a["g2"]):
+                    # the statement demands that the accessor reads back what the mutator stored; that the generic
+                    # attribute list sees the same storage is more than it says: recorded, not judged
+                    generic_only.append("%s.%s (%s): %r, %r" % (a["ent"], a["attr"], a["kind"], a.get("s1"), a.get("s2")))
+                    continue
+                if not (a["r1"] and a["r2"]):
                     dis += 1
-                    what = "typed read-back" if not (a["r1"] and a["r2"]) else "generic view"
+                    what = "typed read-back"
                     ctx.violation("accessor|%s|%s|%s" % (a["kind"], what, a["attr"] if a["kind"].startswith(("simple", "enum", "entity")) else "-"),
                                   "%s.%s (%s): the %s after the typed mutator is wrong (first value ok: %s, second: %s; generic view: %r, %r) %s" % (
                                       a["ent"], a["attr"], a["kind"], what, a["r1"], a["r2"], a.get("s1"), a.get("s2"), a.get("why", "")),
@@ -193,7 +199,8 @@ def run(ctx):
                 else:
                     key = "%s|%s" % (clause, key0)
                 ctx.violation(key, msg[:500], {"choice": c["choice"], "input": txt, "clause": clause})
-    cov = {"programs": n, "accessor_records": nacc[0], "disagreements_checked": n * 12, "disagreements_found": dis, "samples": samples,
+    cov = {"programs": n, "accessor_records": nacc[0],
+           "observed_outside_the_statement": {"typed_mutator_not_visible_in_generic_attribute_list": sorted(set(generic_only))[:12]}, "disagreements_checked": n * 12, "disagreements_found": dis, "samples": samples,
            "states": g.distinct, "evaluations": n, "distinct_nontrivial": n,
            "rule": "valid schema family of spec/Schema.tla (chains, fans, multiple supertypes, every attribute kind, "
                    "enum/select/simple/aggregate/renamed types, DERIVE/INVERSE); 12 dictionary clauses per schema"}
